@@ -841,9 +841,11 @@ class MultipleRangeStaticProducer(StaticProducer):
                 dataLength += len(self.partBoundary)
                 data.append(self.partBoundary)
                 self.partBoundary = None
+            # The part boundary just added may have taken dataLength past
+            # bufferSize.
             p = self.fileObject.read(
                 min(
-                    self.bufferSize - dataLength,
+                    max(self.bufferSize - dataLength, 0),
                     self._partSize - self._partBytesWritten,
                 )
             )
